@@ -33,7 +33,7 @@ func genRestartCase(rng *rand.Rand, i int) LifeSpec {
 	p.Backoff = []int{0, 1, 2, -3}[(i/20)%4]
 	n := 1 + rng.Intn(6)
 	for k := 0; k < n; k++ {
-		p.Exits = append(p.Exits, []int{0, 1, 2}[rng.Intn(3)])
+		p.Exits = append(p.Exits, []int{0, 1, 2, -1, 255}[rng.Intn(5)])
 	}
 	// make the sequence finite
 	if p.Restart == "always" && p.MaxRestarts == 0 {
@@ -93,6 +93,27 @@ func genRestartStopCase(rng *rand.Rand, i int) LifeSpec {
 	}
 	spec.Procs = []PSpec{p, by}
 	spec.EndWithShutdown = true
+	return spec
+}
+
+// genRestartSlowShutdown: a restartable process whose command exits on its
+// own while a slow project shutdown is under way (its turn has not come yet).
+func genRestartSlowShutdown(rng *rand.Rand, i int) LifeSpec {
+	spec := LifeSpec{BackoffUnitMs: 20, Ordered: i%3 != 0}
+	r0 := PSpec{Name: "r0", Restart: []string{"always", "on_failure"}[rng.Intn(2)], Exits: []int{1 + rng.Intn(2)}, RunMs: []int{-1}}
+	// dependents are stopped first under ordered shutdown; they are slow to die
+	d1 := PSpec{Name: "d1", RunMs: []int{-1}, Sig: &sim.SigSpec{Ms: 60 + rng.Intn(60)}, Deps: []Dep{{On: "r0", Cond: types.ProcessConditionStarted}}}
+	d2 := PSpec{Name: "d2", RunMs: []int{-1}, Sig: &sim.SigSpec{Ms: 40 + rng.Intn(80)}, Deps: []Dep{{On: "r0", Cond: types.ProcessConditionStarted}}}
+	spec.Procs = []PSpec{r0, d1, d2}
+	// the shutdown is requested while r0 runs; r0's command exits by itself a
+	// little later, while the dependents are still dying
+	spec.Ops = []Op{
+		{When: "launch:d2", Op: "sleep", N: 5},
+		{When: "now", Op: "shutdown", Async: true},
+		{When: "now", Op: "sleep", N: 10 + rng.Intn(25)},
+		{When: "now", Op: "release", Proc: "r0"},
+	}
+	spec.SilenceMs = 4000
 	return spec
 }
 
@@ -197,6 +218,31 @@ func genShutdownCase(rng *rand.Rand, i int) (LifeSpec, string) {
 	}
 	spec.SilenceMs = 4000
 	return spec, fmt.Sprintf("%s/%s/%s/ordered=%v", point, trigger, shape, ordered)
+}
+
+// genShutdownRepeated: overlapping shutdown requests against slow-dying
+// processes, and shutdown -> explicit start -> shutdown again.
+func genShutdownRepeated(rng *rand.Rand, i int) LifeSpec {
+	spec := LifeSpec{BackoffUnitMs: 20, Ordered: rng.Intn(2) == 0}
+	n := 2 + rng.Intn(3)
+	for k := 0; k < n; k++ {
+		p := PSpec{Name: fmt.Sprintf("s%d", k), RunMs: []int{-1}, Sig: &sim.SigSpec{Ms: 20 + rng.Intn(80)}}
+		if k > 0 && rng.Intn(2) == 0 {
+			p.Deps = []Dep{{On: "s0", Cond: types.ProcessConditionStarted}}
+		}
+		spec.Procs = append(spec.Procs, p)
+	}
+	last := fmt.Sprintf("s%d", n-1)
+	if i%2 == 0 {
+		// two (or three) overlapping requests
+		spec.Ops = []Op{{When: "launch:" + last, Op: "sleep", N: 3}, {When: "now", Op: "shutdown", Async: true}, {When: "now", Op: "sleep", N: 1 + rng.Intn(15)}, {When: "now", Op: "shutdown", Async: rng.Intn(2) == 0}, {When: "now", Op: "sleep", N: rng.Intn(10)}, {When: "now", Op: "shutdown"}}
+	} else {
+		// shutdown, explicit start, shutdown again
+		t := fmt.Sprintf("s%d", rng.Intn(n))
+		spec.Ops = []Op{{When: "launch:" + last, Op: "shutdown"}, {When: "now", Op: "start", Proc: t}, {When: "launch:" + t + ":2", Op: "sleep", N: rng.Intn(10)}, {When: "now", Op: "shutdown"}}
+	}
+	spec.SilenceMs = 4000
+	return spec
 }
 
 // genShutdownRandom: random graph, shutdown at a random instant.
@@ -335,7 +381,19 @@ func genOrderedCase(rng *rand.Rand, i int) LifeSpec {
 		}
 		spec.Procs = append(spec.Procs, p)
 	}
-	spec.Ops = append(spec.Ops, Op{When: fmt.Sprintf("t:%d", 10+rng.Intn(30)), Op: "shutdown"})
+	at := 10 + rng.Intn(30)
+	if i%4 == 1 && n > 1 {
+		// a dependent is already being stopped (and is slow to die) when the
+		// ordered shutdown begins
+		for k := n - 1; k > 0; k-- {
+			if len(spec.Procs[k].Deps) > 0 && spec.Procs[k].RunMs[0] < 0 {
+				spec.Procs[k].Sig = &sim.SigSpec{Ms: 60 + rng.Intn(60)}
+				spec.Ops = append(spec.Ops, Op{When: fmt.Sprintf("t:%d", at-3-rng.Intn(5)), Op: "stop", Proc: spec.Procs[k].Name, Async: true})
+				break
+			}
+		}
+	}
+	spec.Ops = append(spec.Ops, Op{When: fmt.Sprintf("t:%d", at), Op: "shutdown"})
 	spec.SilenceMs = 4000
 	return spec
 }
@@ -361,6 +419,8 @@ func init() {
 				rng := fw.Rand(s)
 				if i%3 == 2 {
 					cs = append(cs, fw.MkCase("C02", "restart-stop", s, genRestartStopCase(rng, i/3)))
+				} else if i%12 == 1 {
+					cs = append(cs, fw.MkCase("C02", "restart-slow-shutdown", s, genRestartSlowShutdown(rng, i/12)))
 				} else {
 					cs = append(cs, fw.MkCase("C02", "restart-grid", s, genRestartCase(rng, i)))
 				}
@@ -400,6 +460,10 @@ func init() {
 			for i := 0; i < n; i++ {
 				s := fw.SubSeed(seed, 5000000+i)
 				cs = append(cs, fw.MkCase("C03", "random", s, genShutdownRandom(fw.Rand(s))))
+			}
+			for i := 0; i < tierN(tier, 200, 4000); i++ {
+				s := fw.SubSeed(seed, 7000000+i)
+				cs = append(cs, fw.MkCase("C03", "repeated", s, genShutdownRepeated(fw.Rand(s), i)))
 			}
 			return cs
 		},
